@@ -24,6 +24,7 @@ import (
 //	err TEXT...            the same on stderr
 //	outerr O E             O on stdout, E on stderr
 //	exit N [TEXT]          optional TEXT on stdout, then exit status N
+//	printhex HEX           write the decoded bytes to stdout (printhexerr: to stderr)
 //	cat                    copy stdin to stdout
 //	argv ARGS...           print every argument hex-encoded, one per line
 //	environ                print every environment entry hex-encoded, one per line
@@ -57,6 +58,17 @@ func HelperMain() {
 			fmt.Println(strings.Join(args[2:], " "))
 		}
 		os.Exit(n)
+	case "printhex", "printhexerr":
+		b, err := hex.DecodeString(args[1])
+		if err != nil {
+			fmt.Fprintln(os.Stderr, err)
+			os.Exit(2)
+		}
+		if args[0] == "printhex" {
+			os.Stdout.Write(b)
+		} else {
+			os.Stderr.Write(b)
+		}
 	case "cat":
 		io.Copy(os.Stdout, os.Stdin)
 	case "argv":
